@@ -577,6 +577,82 @@ func (x *c08Ctx) interiors(rs []c08Res, o c08Opts, v c08Variant, side string) {
 	}
 }
 
+// inclusiveLimits: the limit set with Closest/FurthestInclusiveDistanceLimit (through the hook: the setters
+// belong to the unexported options core) at a distance some edge attains exactly - "results whose distance
+// is exactly equal to the limit are also returned" - and with the Conservative setters ("all edges whose
+// true distance is <= (>=) limit will be returned, along with some edges slightly beyond").
+func (x *c08Ctx) inclusiveLimits(v c08Variant, kn string) {
+	if !x.hasNear {
+		return
+	}
+	type id struct{ S, E int32 }
+	o0 := c08Opts{0, "inf", 0, true, 0}
+	all, _ := x.find(v, o0, true)
+	want, allSet := map[id]s1.ChordAngle{}, map[id]bool{}
+	for _, r := range all {
+		allSet[id{r.S, r.E}] = true
+		if !x.less(x.near, r.D) { // at the limit or better
+			want[id{r.S, r.E}] = r.D
+		}
+	}
+	for _, brute := range []bool{true, false} {
+		path := "optimized"
+		if brute {
+			path = "brute"
+		}
+		run := func(conservative bool) map[id]s1.ChordAngle {
+			q := x.options(o0, brute)
+			if conservative {
+				s2.VerifSetConservativeLimit(q, x.far, x.near)
+			} else {
+				s2.VerifSetInclusiveLimit(q, x.far, x.near)
+			}
+			var eq *s2.EdgeQuery
+			if x.far {
+				eq = s2.NewFurthestEdgeQuery(x.idx, q)
+			} else {
+				eq = s2.NewClosestEdgeQuery(x.idx, q)
+			}
+			t := v.mk()
+			if brute {
+				s2.VerifTargetSetUseBruteForce(t, true)
+			}
+			out := map[id]s1.ChordAngle{}
+			for _, r := range eq.FindEdges(t) {
+				out[id{r.ShapeID(), r.EdgeID()}] = r.Distance()
+			}
+			return out
+		}
+		x.o.Count("inclusive_limit_queries")
+		got := run(false)
+		for k, d := range want {
+			if gd, ok := got[k]; !ok || gd != d {
+				x.fail("eq/inclusive-limit/missing/"+kn+"/"+path, "inclusive distance limit %.17g: shape %d edge %d at distance %.17g of the exhaustive scan is not returned (%d results, %d expected)", float64(x.near), k.S, k.E, float64(d), len(got), len(want))
+				break
+			}
+		}
+		for k, d := range got {
+			if _, ok := want[k]; !ok {
+				x.fail("eq/inclusive-limit/beyond/"+kn+"/"+path, "inclusive distance limit %.17g: result shape %d edge %d at distance %.17g is beyond the limit or not in the exhaustive scan", float64(x.near), k.S, k.E, float64(d))
+				break
+			}
+		}
+		cons := run(true)
+		for k, d := range want {
+			if _, ok := cons[k]; !ok {
+				x.fail("eq/conservative-limit/missing/"+kn+"/"+path, "conservative distance limit %.17g: shape %d edge %d at distance %.17g of the exhaustive scan is not returned", float64(x.near), k.S, k.E, float64(d))
+				break
+			}
+		}
+		for k := range cons {
+			if !allSet[k] {
+				x.fail("eq/conservative-limit/unknown/"+kn+"/"+path, "conservative distance limit %.17g: result shape %d edge %d is not a result of the unlimited exhaustive scan", float64(x.near), k.S, k.E)
+				break
+			}
+		}
+	}
+}
+
 func (x *c08Ctx) class(o c08Opts, fl s2.VerifQueryFlags) string {
 	if fl.AvoidDuplicates {
 		return "dup"
@@ -609,6 +685,7 @@ func (x *c08Ctx) checkCapBound(v c08Variant) {
 func (x *c08Ctx) runVariant(v c08Variant) {
 	kn := x.kindName() + "/" + v.kind
 	x.checkCapBound(v)
+	x.inclusiveLimits(v, kn)
 	incs := []bool{true}
 	if x.hasPoly {
 		incs = []bool{false, true}
